@@ -283,7 +283,7 @@ func (w *world) awaitStable() string {
 }
 
 func (w *world) settle() string {
-	deadline := time.Now().Add(10 * time.Second)
+	deadline := time.Now().Add(25 * time.Second)
 	for {
 		da, db := w.docsOf(w.a), w.docsOf(w.b)
 		var missing []string
